@@ -182,5 +182,7 @@ pub fn def() -> PropertyDef {
         witnesses: vec![Witness { finding: FINDING, run: witness }],
         exhaustive: None,
         exhaustive_in_quick: false,
+        custom: None,
+        custom_replay: None,
     }
 }
